@@ -100,7 +100,7 @@ def run(ctx):
     ctx.coverage["tables"] = build["meta"]
     ctx.coverage["tables_build"] = {"cached": build["cached"], "wall_s": round(build.get("wall_s", 0), 1)}
     known = C.load_known("C14")
-    n_inst = 230 * 7
+    n_inst = 230 * 10
     broken = build["broken"]
     offs, diag = ([], {})
     if build["tables"] is None:
@@ -108,8 +108,8 @@ def run(ctx):
     else:
         offs, diag = offenders_from_build(build) if not build["ok"] else ([], {})
         failed_groups = {o["sg"] for o in offs}
-        ctx.add_obligations(n_inst, n_inst if build["ok"] else max(0, n_inst - 7 * max(1, len(failed_groups))),
-                            "per-group reflection instances: 230 groups x {letters, exprs, group, orbits, info, norms, proper_perms} by vm_compute")
+        ctx.add_obligations(n_inst, n_inst if build["ok"] else max(0, n_inst - 10 * max(1, len(failed_groups))),
+                            "per-group reflection instances: 230 groups x {letters, exprs, group, orbits, info, isometries, norms, proper_perms, perm_inverses, letter_codes} by vm_compute")
     pres = None
     if build["ok"]:
         pres = C.prove_property("C14", [("Inst/C14Inst.v", None)], newer_than=S.all_vo_mtime(), timeout=3000)
